@@ -48,6 +48,8 @@ pub(crate) enum ConfigError {
     overrides: BTreeMap<String, String>,
     arguments: Vec<String>,
   },
+  #[snafu(display("Invalid timestamp format `{format}`"))]
+  TimestampFormat { format: String },
 }
 
 impl ConfigError {
